@@ -410,4 +410,134 @@ theorem tick_sim {env : Env} {net net' : Net} {r : Ret} {o : Out} (hi : PInv net
       obtain ⟨c, o', hc, hs', hf⟩ := this
       simp [refStep, hc, hs', Out.for, hf]
 
+/-! ### one step, any operation -/
+
+/-- what one endpoint call does, seen from address `a` -/
+def StepFor (env : Env) (net net' : Net) (op : Op) (r : Ret) (o : Out) (a : Nat) : Prop :=
+  match projOp net a op with
+  | some lop => refStep net.acceptConnections a env (slot net.peers a) lop = .ok (slot net'.peers a, r, o.for a)
+  | none => slot net'.peers a = slot net.peers a ∧ o.for a = {}
+
+theorem addrOf_eq {net : Net} {pid : Nat} {p : Peer} (h : lookup net.peers pid = some p) (a : Nat) :
+    (addrOf net pid = some a) ↔ p.addr = a := by simp [addrOf, h]
+
+theorem step_sim {env : Env} {net net' : Net} {op : Op} {r : Ret} {o : Out} (hi : PInv net.peers)
+    (hok : opOk net op = true) (h : step env net op = .ok (net', r, o)) :
+    PInv net'.peers ∧ net'.acceptConnections = net.acceptConnections ∧
+      ∀ a, StepFor env net net' op r o a := by
+  cases op with
+  | feed addr rd =>
+    obtain ⟨h1, h2, h3, h4⟩ := feed_sim hi h
+    refine ⟨h1, h2, fun a => ?_⟩
+    by_cases ha : addr = a
+    · subst ha; simpa [StepFor, projOp] using h4
+    · simpa [StepFor, projOp, ha] using h3 a (Ne.symm ha)
+  | connect addr =>
+    have hs : slot net.peers addr = none := by simpa [opOk] using hok
+    obtain ⟨h1, h2, h3, h4⟩ := connect_sim hi hs h
+    refine ⟨h1, h2, fun a => ?_⟩
+    by_cases ha : addr = a
+    · subst ha; simpa [StepFor, projOp] using h4
+    · simpa [StepFor, projOp, ha] using h3 a (Ne.symm ha)
+  | accept pid =>
+    obtain ⟨p, hl, h1, h2, _, h3⟩ := modifyPeer_sim hi h
+    refine ⟨h1, h2, fun a => ?_⟩
+    have := h3 a
+    by_cases ha : p.addr = a
+    · simpa [StepFor, projOp, addrOf_eq hl, ha, refStep] using this
+    · simpa [StepFor, projOp, addrOf_eq hl, ha] using this
+  | reject pid reason =>
+    obtain ⟨p, hl, h1, _, h2, _, h3⟩ := removePeer_sim hi h
+    refine ⟨h1, h2, fun a => ?_⟩
+    have := h3 a
+    by_cases ha : p.addr = a
+    · simpa [StepFor, projOp, addrOf_eq hl, ha, refStep] using this
+    · simpa [StepFor, projOp, addrOf_eq hl, ha] using this
+  | disconnect pid reason =>
+    obtain ⟨p, hl, h1, _, h2, _, h3⟩ := removePeer_sim hi h
+    refine ⟨h1, h2, fun a => ?_⟩
+    have := h3 a
+    by_cases ha : p.addr = a
+    · simpa [StepFor, projOp, addrOf_eq hl, ha, refStep] using this
+    · simpa [StepFor, projOp, addrOf_eq hl, ha] using this
+  | ignore pid =>
+    have h' : removePeer net pid (fun _ => .ok {}) = .ok (net', r, o) := h
+    obtain ⟨p, hl, h1, _, h2, _, h3⟩ := removePeer_sim hi h'
+    refine ⟨h1, h2, fun a => ?_⟩
+    have := h3 a
+    by_cases ha : p.addr = a
+    · simpa [StepFor, projOp, addrOf_eq hl, ha, refStep] using this
+    · simpa [StepFor, projOp, addrOf_eq hl, ha] using this
+  | send pid d v =>
+    obtain ⟨p, hl, h1, h2, _, h3⟩ := modifyPeer_sim hi h
+    refine ⟨h1, h2, fun a => ?_⟩
+    have := h3 a
+    by_cases ha : p.addr = a
+    · simpa [StepFor, projOp, addrOf_eq hl, ha, refStep] using this
+    · simpa [StepFor, projOp, addrOf_eq hl, ha] using this
+  | flush pid =>
+    obtain ⟨p, hl, h1, h2, _, h3⟩ := modifyPeer_sim hi h
+    refine ⟨h1, h2, fun a => ?_⟩
+    have := h3 a
+    by_cases ha : p.addr = a
+    · simpa [StepFor, projOp, addrOf_eq hl, ha, refStep] using this
+    · simpa [StepFor, projOp, addrOf_eq hl, ha] using this
+  | sendConnless addr d =>
+    obtain ⟨h1, h2, h3⟩ := sendConnless_sim h env
+    subst h1
+    refine ⟨hi, rfl, fun a => ?_⟩
+    by_cases ha : addr = a
+    · subst ha; simpa [StepFor, projOp] using h3
+    · simpa [StepFor, projOp, ha] using h2 a (Ne.symm ha)
+  | tick =>
+    obtain ⟨h1, h2, h3⟩ := tick_sim hi h
+    exact ⟨h1, h2, fun a => by simpa [StepFor, projOp] using h3 a⟩
+
+/-! ### histories -/
+
+theorem run_sim (a : Nat) (h : History) : ∀ (net net' : Net) (tr : List (Ret × Out)),
+    PInv net.peers → histOk net h = true → runFor a net h = .ok (net', tr) →
+    PInv net'.peers ∧
+      refRun net.acceptConnections a (slot net.peers a) (projHist a net h) = .ok (slot net'.peers a, tr) := by
+  induction h with
+  | nil =>
+    intro net net' tr hi _ hr
+    simp [runFor] at hr
+    obtain ⟨h1, h2⟩ := hr
+    subst h1 h2
+    exact ⟨hi, by simp [projHist, refRun]⟩
+  | cons x xs ih =>
+    obtain ⟨env, op⟩ := x
+    intro net net' tr hi hok hr
+    simp only [runFor] at hr
+    simp only [histOk, Bool.and_eq_true] at hok
+    cases hst : step env net op with
+    | error f => simp [hst] at hr
+    | ok v =>
+      obtain ⟨net1, r, o⟩ := v
+      simp only [hst] at hr hok
+      obtain ⟨hi1, hacc, hstep⟩ := step_sim hi hok.1 hst
+      cases hrest : runFor a net1 xs with
+      | error f => simp [hrest] at hr
+      | ok w =>
+        obtain ⟨net2, outs⟩ := w
+        simp only [hrest, Except.ok.injEq, Prod.mk.injEq] at hr
+        obtain ⟨h1, h2⟩ := hr
+        subst h1 h2
+        obtain ⟨hi2, href⟩ := ih net1 net2 outs hi1 hok.2 hrest
+        refine ⟨hi2, ?_⟩
+        have hs := hstep a
+        rw [hacc] at href
+        simp only [projHist, hst]
+        unfold StepFor at hs
+        cases hp : projOp net a op with
+        | none =>
+          simp only [hp] at hs
+          simp only [refRun, ← hs.1, href, hs.2]
+          simp
+        | some lop =>
+          simp only [hp] at hs
+          simp only [refRun, hs, href]
+          simp
+
 end Tw.Net
